@@ -1,0 +1,96 @@
+//go:build verif
+
+// Contracts for package model, checked by /verif/govc. Comment-only.
+
+package model
+
+// T-REFLECT symbols (declared in /verif/trusted/prelude.smt2)
+//@ extern pure func rv_with_bits(v RV, x bv64) RV
+//@ extern pure func rv_with_f(v RV, x float64) RV
+//@ extern pure func rv_assign(v RV, x RV) RV
+//@ extern pure func rv_field(v RV, name string) RV
+//@ extern pure func rv_index(v RV, i int) RV
+//@ extern pure func rv_mapslot(m RV, k RV) int
+//@ extern pure func rv_canset(v RV) bool
+//@ extern pure func rv_canaddr(v RV) bool
+//@ extern pure func rv_isnil(v RV) bool
+//@ extern pure func trunc_signed(k int, x bv64) bv64
+//@ extern pure func trunc_unsigned(k int, x bv64) bv64
+
+//@ pure func numK(k int) bool { return (2 <= k && k <= 11) || k == 13 || k == 14 }
+//@ pure func sgnK(k int) bool { return 2 <= k && k <= 6 }
+//@ pure func unsK(k int) bool { return 7 <= k && k <= 11 }
+//@ pure func fltK(k int) bool { return k == 13 || k == 14 }
+
+// convNum: the value a numeric destination holds after being assigned a numeric source, defined on number CLASSES:
+// integer destinations take the source's integer reading (float sources truncated toward zero, as Go converts),
+// narrowed to the destination's width; float destinations take the source promoted to float64 (float32 rounded).
+//@ pure func srcAsSigned(s RV) bv64   { return ite(fltK(s.kind), f2s(s.f), s.bits) }
+//@ pure func srcAsUnsigned(s RV) bv64 { return ite(fltK(s.kind), f2u(s.f), s.bits) }
+//@ pure func srcAsFloat(s RV) float64 { return ite(fltK(s.kind), s.f, ite(sgnK(s.kind), sfloat(s.bits), ufloat(s.bits))) }
+//@ pure func convNum(d RV, s RV) RV { return ite(sgnK(d.kind), rv_with_bits(d, trunc_signed(d.kind, srcAsSigned(s))),
+//@        ite(unsK(d.kind), rv_with_bits(d, trunc_unsigned(d.kind, srcAsUnsigned(s))),
+//@        rv_with_f(d, ite(d.kind == 13, f32round(srcAsFloat(s)), srcAsFloat(s))))) }
+
+//@ func SetNumberValue(target, newvalue) (err)
+//@   serves C04
+//@   ints bv
+//@   panics_only_if numK(target.kind) && numK(newvalue.kind) && !rv_canset(target)
+//@   panic_ensures $loc == old($loc)
+//@   modifies $loc
+//@   ensures numK(target.kind) && numK(newvalue.kind) ==> err == nil && $loc == store(old($loc), target.id, convNum(target, newvalue))
+//@   ensures !(numK(target.kind) && numK(newvalue.kind)) ==> err != nil && $loc == old($loc)
+
+// the struct a node addresses: through an interface and/or one pointer
+//@ pure func objOf(v RV) RV { return ite(ite(v.kind == 20 && !rv_isnil(v), rv_elem(v), v).kind == 22, rv_elem(ite(v.kind == 20 && !rv_isnil(v), rv_elem(v), v)), ite(v.kind == 20 && !rv_isnil(v), rv_elem(v), v)) }
+//@ pure func settable(v RV) bool { return v.kind != 0 && rv_canaddr(v) && rv_canset(v) }
+
+// exactly one location is written: the addressed field, with the (converted) new value; on error nothing is written
+//@ func (node *GoValueNode) SetObjectValueByField(field, newValue) (err)
+//@   serves C04
+//@   requires node != nil
+//@   requires objOf(node.thisValue).kind == 25
+//@   opt axioms=od_strip_base,od_strip_step
+//@   nopanic
+//@   modifies $loc
+//@   ensures[C04] number: err == nil && numK(rv_field(objOf(node.thisValue), field).kind) && numK(newValue.kind)
+//@        ==> $loc == store(old($loc), rv_field(objOf(node.thisValue), field).id, convNum(rv_field(objOf(node.thisValue), field), newValue))
+//@   ensures[C04] ptrnumber: err == nil && !numK(rv_field(objOf(node.thisValue), field).kind) && numK(strip(rv_field(objOf(node.thisValue), field)).kind) && numK(newValue.kind)
+//@        ==> $loc == store(old($loc), rv_elem(rv_field(objOf(node.thisValue), field)).id, convNum(rv_elem(rv_field(objOf(node.thisValue), field)), newValue))
+//@   ensures[C04] other: err == nil && !(numK(strip(rv_field(objOf(node.thisValue), field)).kind) && numK(newValue.kind))
+//@        ==> $loc == store(old($loc), rv_field(objOf(node.thisValue), field).id, rv_assign(rv_field(objOf(node.thisValue), field), newValue))
+//@   ensures[C04] erroruntouched: err != nil ==> $loc == old($loc)
+//@   ensures[C04] refuses: !settable(rv_field(objOf(node.thisValue), field)) ==> err != nil
+
+//@ func (node *GoValueNode) IsArray() (r)
+//@   requires node != nil
+//@   nopanic
+//@   ensures r == (node.thisValue.kind == 17 || node.thisValue.kind == 23)
+//@ func (node *GoValueNode) IsMap() (r)
+//@   requires node != nil
+//@   nopanic
+//@   ensures r == (node.thisValue.kind == 21)
+
+//@ func (node *GoValueNode) SetArrayValueAt(index, value) (err)
+//@   serves C04
+//@   requires node != nil
+//@   nopanic
+//@   modifies $loc
+//@   ensures[C04] number: err == nil && numK(rv_index(node.thisValue, index).kind) && numK(value.kind)
+//@        ==> $loc == store(old($loc), rv_index(node.thisValue, index).id, convNum(rv_index(node.thisValue, index), value))
+//@   ensures[C04] other: err == nil && !(numK(rv_index(node.thisValue, index).kind) && numK(value.kind))
+//@        ==> $loc == store(old($loc), rv_index(node.thisValue, index).id, rv_assign(rv_index(node.thisValue, index), value))
+//@   ensures[C04] erroruntouched: err != nil ==> $loc == old($loc)
+//@   ensures[C04] isarray: err == nil ==> (node.thisValue.kind == 17 || node.thisValue.kind == 23)
+
+//@ func (node *GoValueNode) SetMapValueAt(index, newValue) (err)
+//@   serves C04
+//@   requires node != nil
+//@   nopanic
+//@   modifies $loc
+//@   ensures[C04] slot: err == nil ==> node.thisValue.kind == 21 && $loc == store(old($loc), rv_mapslot(node.thisValue, index), newValue)
+//@   ensures[C04] erroruntouched: err != nil ==> $loc == old($loc)
+
+// diagnostic name of a node (used in error messages only): ASSUMED effect-free and panic-free
+//@ extern func (node *GoValueNode) IdentifiedAs() (s)
+//@   nopanic
